@@ -737,3 +737,5 @@ RENAME_FUNCS = [(P, 'Measure._parse'), (P, 'Note._parse'), (P, 'ChordSymbol._par
                 (P, 'Note.pitch_to_midi_pitch'), (P, 'Measure._parse_backup'), (P, 'Measure._parse_forward'), (P, 'NoteDuration.parse_duration'),
                 (P, 'KeySignature._parse'), (P, 'ChordSymbol.get_figure_string'), (P, 'Measure._parse_direction'), (R, 'musicxml_to_sequence_proto'),
                 (R, 'musicxml_file_to_sequence_proto'), (P, 'Note._parse_pitch'), (P, 'Measure._parse_attributes')]
+
+EXPLANATION += (' Location-independent additions: KEY/tonic-by-signature (the key expression of each mode path folded for all 15 signatures), CONTAIN/zip-name-flag (cp437 re-decoding only under a test of flag_bits & 0x800).')
